@@ -1,58 +1,16 @@
-"""regenerates /verif/MANIFEST.json from the table below (run by hand after adding a check)"""
+"""regenerates /verif/MANIFEST.json from harness/claimed.json (per-property texts) and harness/registered.json
+(the list of properties whose check is registered); run by hand after adding a check"""
 import json
 from pathlib import Path
 V = Path(__file__).resolve().parents[1]
 props = [json.loads(l) for l in open(V / "properties.jsonl")]
-
-CLAIMED = {
- "C05": dict(text="Lean theorems (FP/Props/C05.lean): optimum preservation under added constraints that every feasible point can be mapped into at equal objective; "
-   "feasible set of base++extra is the intersection; fixing through bounds is equivalent to fixing through rows (with C12's exact batch update); search shortcuts "
-   "(greedy, given/guessed weights, accepted only when their route count equals the k under test) leave the search answer unchanged. PARTIAL: that the concrete safe "
-   "sequences/zero-fixes satisfy the preservation hypothesis is C06's safety+incompatibility statement and is not yet proven; it is covered by the metamorphic "
-   "end-to-end oracle (same input, sampled subsets / full cross product of all documented flags, every class: equal solved status and objective vs the all-off baseline).",
-   note="HiGHS optimality/infeasibility proofs trusted on the small metamorphic instances; option conflicts documented as ValueError are skipped.",
-   tech="Lean 4 generic optimum-preservation theorems + metamorphic end-to-end oracle over option subsets", ref="7/C05"),
- "C01": dict(text="Lean theorems (FP/Props/C01.lean) for every satisfying assignment of the DAG path encoding on every well-formed user DAG, any k, any "
-   "additional starts/ends: each layer decodes (the successor-following loop terminates within its fuel) to the empty path (only if allowed) or to a simple "
-   "route of the user's graph from a source/declared start to a sink/declared end, the layer's variables being exactly the path's indicator; the augmentation "
-   "is a well-formed s-t DAG; k layers are returned. Tied to the code by exact-output differential testing of the augmentation order and of get_solution_paths "
-   "on injected assignments (K1), LP-dump equality of the DAG encoders (K2), and an end-to-end route-validity oracle on get_solution() of all 12 exported "
-   "decomposition/cover classes (K5). Walk models: reconstruction proven in C14; walk-encoding soundness is covered by the end-to-end oracle only (partial).",
-   note="HiGHS returns LP-feasible assignments when it reports kOptimal; walk-encoding connectivity argument not yet a theorem; Min* wrappers' forwarding is "
-   "checked by the oracle, not proven.",
-   tech="Lean 4 refinement theorem (LP assignment -> valid route) + differential testing + end-to-end oracle", ref="7/C01"),
- "C02": dict(text="Lean theorems (FP/Props/C02.lean: kfd_exact, kfd_given_exact): every satisfying assignment of the kFlowDecomp LPs (plain and given-weights) on every "
-   "well-formed user DAG decodes to paths and weights with sum_i w_i*[e in p_i] = f(e) on every non-ignored edge, weights within [0, w_max]; built on the path-encoding "
-   "and product-encoding theorems. Tied to the code by LP-dump equality of kFlowDecomp (K2) and an end-to-end exactness oracle (Fractions for ints, 1e-6 for floats, "
-   "weight types) on the four flow-decomposition classes over the MILP, greedy, given-weights and guessed-weights routes (K5). Cyclic and greedy routes: oracle + K2 only (partial).",
-   note="exactness for float weights is in exact arithmetic; cyclic encoder and greedy peeling not yet proven (C17 covers peeling).",
-   tech="Lean 4 refinement theorem on the LP generator + LP-dump equality + end-to-end oracle", ref="7/C02"),
- "C12": dict(text="Lean theorems (FP/Props/C12.lean): exactness of the binary*continuous and integer*continuous product encodings "
-   "(sound and complete, all bounds incl. ub=0 and non powers of two), soundness of the piecewise-constant encoding and its completeness "
-   "under the big-M hypothesis (with the negative witness), exact effect of queued bound updates, objective replacement. The model is tied "
-   "to solverwrapper.py by LP-dump equality of each helper (K2) and by differential runs of random add_variables/queue_*/set_objective/optimize "
-   "histories with column bounds/costs read back from HiGHS (K1).",
-   note="HiGHS/highspy calls (changeColsBounds, getCols, changeColsCost, addVariables) behave as observed in the differential runs; float "
-   "arithmetic of ceil(log2(ub+1)) for huge ub not modelled; Gurobi branch not executable here.",
-   tech="Lean 4 theorems on an executable model + LP-dump equality and op-sequence differential testing", ref="7/C12"),
- "C13": dict(text="Lean theorems (FP/Props/C13.lean) over all status scripts, ranges and clocks: a minimum search returns k only if k was proven optimal "
-   "and every smaller tried k proven infeasible; any inconclusive status (or elapsed-time hit) before the first optimal k ends the search unsolved; "
-   "NumPathsOptimization only returns a model proven optimal for its k; solved flag iff kOptimal without custom timeout. Tied to the code by fault injection "
-   "at every solver-invocation position (K3): observed (k,status) traces and answers must equal the Lean machines' runs.",
-   note="forced statuses stand for real time-outs; real clock and SIGALRM delivery are scripted, not executed; HiGHS's own status reporting trusted.",
-   tech="Lean 4 induction over search state machines + exhaustive single-position fault injection on the real code", ref="7/C13"),
- "C14": dict(text="Full-strength Lean theorem (FP/Props/C14.lean: reconstruct_euler, reconstruct_zero): for every adjacency structure that is balanced, "
-   "leaves the source once and is connected, the model of _reconstruct_eulerian_walk returns one walk whose consecutive pairs are a permutation of the edge "
-   "multiset (fuel proven sufficient). Tied to the code by exact-output differential testing (K1) of the real functions driven through a stub object on generated "
-   "Eulerian multigraphs, malformed multigraphs and injected solver values.",
-   note="python list semantics as transcribed; round() of solver values exercised but not modelled.",
-   tech="Lean 4 proof (Hierholzer invariants, List.Perm) + exact-output differential testing", ref="7/C14"),
-}
+CLAIMED = json.load(open(V / "harness" / "claimed.json"))
+REGISTERED = json.load(open(V / "harness" / "registered.json"))
 
 checks = []
 for p in props:
     pid = p["id"]
-    if pid not in CLAIMED:
+    if pid not in REGISTERED:
         continue
     c = CLAIMED[pid]
     checks.append({"property_id": pid, "quick_cmd": f"./check {pid} --tier quick",
@@ -75,7 +33,7 @@ m = {"version": 1,
                   "kind_free_text": "Python correspondence harness (K1-K5) driving the real package and the Lean driver"}],
      "checks": checks,
      "not_applicable": [{"property_id": i, "reason": "check under construction in this round; not claimed yet"}
-                        for i in ids if i not in CLAIMED],
+                        for i in ids if i not in REGISTERED],
      "notes": "see DESIGN.md; ./check <id> --tier quick|thorough; VERIF_SEED seeds all generators; FLOWPATHS_REPO selects the tree (default /repo)"}
 json.dump(m, open(V / "MANIFEST.json", "w"), indent=1)
-print("claimed:", [c["property_id"] for c in checks])
+print("registered:", [c["property_id"] for c in checks])
